@@ -176,4 +176,11 @@ def post_model(ctx, T, run_model):
         L.append("sign.ph verify %s %s %s %s -" % (sig, hexs(pk), hexs(m[:cut]), hexs(m[cut:])))
         L.append("sign.ph verify %s %s %s" % (sig, hexs(pk), hexs(m + b"x")))
         L.append("sign.verify %s %s %s" % (sig, hexs(m), hexs(pk)))        # a pre-hashed signature is not a plain one
+        # domain separation in both directions: a PLAIN signature over SHA-512(m) (resp. over m) must not pass multi-part verification of m, and the
+        # pre-hashed signature must not pass plain verification of SHA-512(m)
+        import hashlib
+        d = hashlib.sha512(m).digest()
+        L.append("sign.ph verify %s %s %s" % (hexs(edpy.sign(sk[:32], d)), hexs(pk), hexs(m) if m else "-"))
+        L.append("sign.ph verify %s %s %s" % (hexs(edpy.sign(sk[:32], m)), hexs(pk), hexs(m) if m else "-"))
+        L.append("sign.verify %s %s %s" % (sig, hexs(d), hexs(pk)))
     return base + L
